@@ -191,6 +191,15 @@ fn run_scene(case: &Value, idx: usize, rng: &mut Rng) -> Value {
         let gwin = Window { wall: gw.id, name: "GV".to_string(), geometry: WinGeom { position: Some(point![2.0, 2.0]), width: 4.0, height: 3.0, setback: 0.1 }, ..Default::default() };
         m.walls.push(gw);
         m.windows.push(gwin);
+        // a wall that has no position, with a set-back window that has one: it has no reveals anywhere, and must not take
+        // away the reveals of the other windows
+        if (idx / 2) % 2 == 0 {
+            let mut nw = wall_of("GN", BoundaryType::EXTERIOR, WallGeom { tilt: 90.0, azimuth: 0.0, position: None, polygon: rect(6.0, 3.0) });
+            nw.geometry.position = None;
+            let nwin = Window { wall: nw.id, name: "GNV".to_string(), geometry: WinGeom { position: Some(point![1.0, 1.0]), width: 1.0, height: 1.0, setback: 0.25 }, ..Default::default() };
+            m.walls.push(nw);
+            m.windows.push(nwin);
+        }
         let other = Window { wall: wall_id, name: "V2".to_string(), geometry: WinGeom { position: Some(point![(62.0 * U) as f32, (5.0 * U) as f32]), width: (10.0 * U) as f32, height: (10.0 * U) as f32, setback: 0.3 }, ..Default::default() };
         m.windows.push(other);
     }
@@ -429,6 +438,11 @@ pub fn main_shading(args: &Args) {
             }
         }
         stats["scenes"] = json!(n);
+    }
+    if args.flag("--scenes-only") {
+        write_lines(&out_path, &out.iter().map(|e| e.to_string()).collect::<Vec<_>>());
+        println!("{}", json!({"events": out.len(), "traces": out.len(), "out": out_path}));
+        return;
     }
     let zs = zones();
     // (B) real models: every window, plus one random extra obstacle per round
